@@ -443,6 +443,10 @@ pub fn scrypt(password: &[u8], salt: &[u8], n: u32, r: u32, p: u32, dk_len: usiz
 
 /// Generates the specified amount of bytes from a CSPRNG
 pub fn secure_random(len: usize) -> Vec<u8> {
+    #[cfg(kestrel_verif)]
+    if let Some(data) = verif_hooks::take_random(len) {
+        return data;
+    }
     let mut data = vec![0u8; len];
     getrandom::fill(&mut data).expect("CSPRNG gen failed");
     data
@@ -467,6 +471,39 @@ pub mod verif_hooks {
 
     pub fn hkdf_noise(chaining_key: &[u8], ikm: &[u8]) -> (Vec<u8>, Vec<u8>) {
         crate::hkdf_noise(chaining_key, ikm)
+    }
+
+    // Deterministic random stream for differential testing: when a stream has
+    // been installed, secure_random() consumes it front to back.
+    static RANDOM_STREAM: std::sync::Mutex<Option<std::collections::VecDeque<u8>>> =
+        std::sync::Mutex::new(None);
+
+    pub fn set_random_stream(stream: Option<Vec<u8>>) {
+        *RANDOM_STREAM.lock().unwrap() = stream.map(|s| s.into());
+    }
+
+    pub fn random_stream_remaining() -> Option<usize> {
+        RANDOM_STREAM.lock().unwrap().as_ref().map(|q| q.len())
+    }
+
+    pub(crate) fn take_random(len: usize) -> Option<Vec<u8>> {
+        let mut guard = RANDOM_STREAM.lock().unwrap();
+        let q = guard.as_mut()?;
+        assert!(q.len() >= len, "verif random stream exhausted");
+        Some(q.drain(..len).collect())
+    }
+
+    pub fn scrypt_salsa_xor(tmp: &mut [u32], inn: &[u32], out: &mut [u32]) {
+        crate::scrypt::verif_salsa_xor(tmp, inn, out)
+    }
+
+    pub fn scrypt_block_mix(tmp: &mut [u32], inn: &[u32], out: &mut [u32], r: usize) {
+        crate::scrypt::verif_block_mix(tmp, inn, out, r)
+    }
+
+    #[allow(non_snake_case)]
+    pub fn scrypt_smix(b: &mut [u8], r: usize, N: usize, v: &mut [u32], x: &mut [u32], y: &mut [u32]) {
+        crate::scrypt::verif_smix(b, r, N, v, x, y)
     }
 }
 
